@@ -415,13 +415,21 @@ func ExecuteUpload(t *testing.T, plan *Plan, opts Opts) *RunResult {
 		time.Sleep(time.Duration(p.CloseDelayNS) + time.Second)
 		finished = true
 	})
-	simos.Hook = nil
-	rl.flush(res.Log)
-	if w != nil {
-		w.Close()
+	if !res.Bubble.Stuck {
+		simos.Hook = nil
+		rl.flush(res.Log)
+		if w != nil {
+			w.Close()
+		}
 	}
 	if res.Bubble.Panic != nil {
 		add("panic", "panic during the upload: "+res.Bubble.PanicText)
+		return res
+	}
+	if res.Bubble.Stuck {
+		res.Stuck = true
+		res.Stats.Deadlocks++
+		add("upload-hang", "Write or Close made no progress for "+rt.StuckAfter.String()+" of real time:\n"+firstLines(strings.Join(rt.LibraryGoroutines(res.Bubble.Stacks), "\n\n"), 40))
 		return res
 	}
 	if res.Bubble.Deadlock || (res.Bubble.Leftover && !finished) {
